@@ -41,6 +41,8 @@ CLAIMED["C19"] = ("DESIGN.md#c19", "Lean theorems about the range loop for any s
          "Lean 4 proof over range-loop model + differential correspondence run")
 CLAIMED["C10"] = ("DESIGN.md#c10", "Lean theorems: every Duration operator (neg, abs, +, -, * int/float, / int/float, // int, // / % divmod by a duration or plain timedelta) equals the integer semantics of the native timedelta operator (floor division/modulo, round-half-even proved for divisors of either sign), neg/* int component-wise on years/months, result-type table, comparison/hash read the native slots; correspondence on the whole input range; oracle = the same operator on native timedeltas (former findings F17/F18 fixed)",
          "Lean 4 proof over exact-microsecond Duration model + differential correspondence run")
+CLAIMED["C17"] = ("DESIGN.md#c17", "Lean theorems over a model of the whole parse() pipeline (parser.py + parsing/__init__.py on top of the C07/C13 parser models) with Python exception kinds explicit: for every string, every option combination and every dateutil that fails only with ValueError/ArithmeticError the result is one of the five types or a ValueError kind (both backends); strict=True never consults dateutil and accepts only what the ISO 8601 / interval / common parsers accept; durations are never computed from wrapped numbers (lifted from C13); backends agree on the well-formed families (partial, counterexamples F22/F23 in Lean); correspondence ~2x10^5 strings (all single edits of 47 seeds, sampled double edits, truncations, concatenations, Unicode digits, random, free text) x options x 2 backends (thorough 3x10^6+); oracle = exception class / result type, independent grammar for the strict gate, Fraction reference for values, cross-backend comparison",
+         "Lean 4 proof over pipeline model + differential correspondence run (dateutil as a parameter fed from the real library)")
 NA = {}
 def main():
     props = [json.loads(l) for l in open(os.path.join(ROOT, "properties.jsonl"))]
